@@ -2,6 +2,9 @@ package gose
 
 import (
 	"fmt"
+	"os"
+	"sort"
+	"sync"
 	"strings"
 
 	"golang.org/x/tools/go/ssa"
@@ -16,9 +19,10 @@ import (
 // Afterwards, for each pair of conflicting accesses from different goroutines, the solver
 // is asked for a total order of the synchronisation events that is consistent with
 // program order, channel semantics (k-th receive after k-th send, capacity), mutual
-// exclusion and goroutine creation, and in which the two accesses are adjacent. A model is
-// a schedule in which the accesses race; unsat means every admissible re-ordering that keeps
-// each goroutine's recorded control flow separates them.
+// exclusion and goroutine creation, (critical sections keep their recorded order) and in which
+// the two accesses are adjacent. A model is a schedule in which the accesses race; unsat
+// means every admissible re-ordering that keeps each goroutine's recorded control flow
+// separates them.
 
 const (
 	evRead = iota
@@ -68,12 +72,15 @@ func (m *Machine) curSite() (string, bool) {
 	fn := g.stack[len(g.stack)-1]
 	lib := !isHarnessFn(fn)
 	s := shortFn(fn)
-	// one level of calling context keeps apart the same accessor used by different code
-	for i := len(g.stack) - 2; i >= 0; i-- {
+	// two levels of calling context keep apart the same accessor used by different code
+	last := fn
+	levels := 0
+	for i := len(g.stack) - 2; i >= 0 && levels < 2; i-- {
 		c := g.stack[i]
-		if c != fn {
+		if c != last {
 			s += " <- " + shortFn(c)
-			break
+			last = c
+			levels++
 		}
 	}
 	return s, lib
@@ -211,7 +218,6 @@ func (m *Machine) AnalyseRaces(solverKind string, st *smt.Stats) ([]RaceReport, 
 			reps[k][1] = e
 		}
 	}
-	type pair struct{ a, b *rEvent }
 	var cands []pair
 	seenSites := map[string]int{}
 	for _, keys := range byLoc {
@@ -234,7 +240,7 @@ func (m *Machine) AnalyseRaces(solverKind string, st *smt.Stats) ([]RaceReport, 
 				}
 				for _, a := range reps[ka] {
 					for _, b := range reps[kb] {
-						if !a.lib && !b.lib {
+						if !a.lib && !b.lib && !m.raceAll {
 							continue
 						}
 						sk := a.site + " | " + b.site
@@ -255,14 +261,75 @@ func (m *Machine) AnalyseRaces(solverKind string, st *smt.Stats) ([]RaceReport, 
 	if len(cands) == 0 {
 		return nil, stats, nil
 	}
+	// --- the pairs are decided in parallel shards, each with its own term context and solver
+	nshard := 8
+	if len(cands) < nshard {
+		nshard = len(cands)
+	}
+	type shardOut struct {
+		reports  []RaceReport
+		sat, unsat, unknown, queries int
+		problems []string
+		syncN    int
+	}
+	outs := make([]shardOut, nshard)
+	var wg sync.WaitGroup
+	for sh := 0; sh < nshard; sh++ {
+		wg.Add(1)
+		go func(sh int) {
+			defer wg.Done()
+			var mine []pair
+			for i := sh; i < len(cands); i += nshard {
+				mine = append(mine, cands[i])
+			}
+			outs[sh] = func() shardOut {
+				var o shardOut
+				reports, st2, probs := decidePairs(r, mine, solverKind, st)
+				o.reports, o.problems = reports, probs
+				o.sat, o.unsat, o.unknown, o.queries, o.syncN = st2.Sat, st2.Unsat, st2.Unknown, st2.Queries, st2.SyncEvents
+				return o
+			}()
+		}(sh)
+	}
+	wg.Wait()
+	var reports []RaceReport
+	seen := map[string]bool{}
+	for _, o := range outs {
+		for _, rr := range o.reports {
+			k := rr.SiteA + " | " + rr.SiteB
+			if !seen[k] {
+				seen[k] = true
+				reports = append(reports, rr)
+			}
+		}
+		stats.Sat += o.sat
+		stats.Unsat += o.unsat
+		stats.Unknown += o.unknown
+		stats.Queries += o.queries
+		stats.SyncEvents = o.syncN
+		problems = append(problems, o.problems...)
+	}
+	return reports, stats, problems
+}
+
+type pair struct{ a, b *rEvent }
+
+// decidePairs builds the order constraints of the recorded trace and decides each pair.
+func decidePairs(r *raceLog, cands []pair, solverKind string, st *smt.Stats) ([]RaceReport, RaceStats, []string) {
+	var stats RaceStats
+	var problems []string
 	// --- order constraints over synchronisation events
 	c := sym.NewCtx()
-	const W = 16
 	var syncEv []*rEvent
 	for _, e := range r.events {
 		if e.kind != evRead && e.kind != evWrite {
 			syncEv = append(syncEv, e)
 		}
+	}
+	// order values: sync events + the two accesses fit into 2^W - 2 slots
+	W := 8
+	for (1<<uint(W))-4 < len(syncEv)+2 {
+		W++
 	}
 	stats.SyncEvents = len(syncEv)
 	ov := map[int]*sym.Term{}
@@ -283,7 +350,7 @@ func (m *Machine) AnalyseRaces(solverKind string, st *smt.Stats) ([]RaceReport, 
 			base = append(base, lt(p, e))
 		}
 		lastOf[e.g] = e
-		base = append(base, c.Ult(O(e), c.BV(W, 60000)), c.Ult(c.BV(W, 0), O(e)))
+		base = append(base, c.Ult(O(e), c.BV(W, uint64(1<<uint(W))-2)), c.Ult(c.BV(W, 0), O(e)))
 	}
 	// goroutine creation
 	startOf := map[int]*rEvent{}
@@ -384,13 +451,15 @@ func (m *Machine) AnalyseRaces(solverKind string, st *smt.Stats) ([]RaceReport, 
 			}
 		}
 	}
+	// Critical sections of one mutex keep their recorded order (release happens-before the
+	// next acquire). Re-ordering critical sections would be sound only together with
+	// read-consistency constraints (a section that runs earlier may take another branch),
+	// so it is not attempted: no alarm is raised that the recorded control flow cannot back.
 	for _, secs := range sections {
-		for i := 0; i < len(secs); i++ {
-			for j := i + 1; j < len(secs); j++ {
-				if secs[i].l.g == secs[j].l.g {
-					continue
-				}
-				base = append(base, c.Or(lt(secs[i].u, secs[j].l), lt(secs[j].u, secs[i].l)))
+		sort.Slice(secs, func(i, j int) bool { return secs[i].l.id < secs[j].l.id })
+		for i := 0; i+1 < len(secs); i++ {
+			if secs[i].l.g != secs[i+1].l.g {
+				base = append(base, lt(secs[i].u, secs[i+1].l))
 			}
 		}
 	}
@@ -464,6 +533,14 @@ func (m *Machine) AnalyseRaces(solverKind string, st *smt.Stats) ([]RaceReport, 
 		case smt.Sat:
 			stats.Sat++
 			reported[sk] = true
+			if os.Getenv("VERIF_RACE_DEBUG") != "" {
+				names := []string{"R", "W", "SendStart", "SendEnd", "Recv", "Close", "Lock", "Unlock", "Go", "Start", "WgDone", "WgWait"}
+				for _, e := range r.events {
+					if (e.g == p.a.g || e.g == p.b.g) && (e.kind > evWrite || e == p.a || e == p.b) {
+						fmt.Fprintf(os.Stderr, "  ev%d g%d %s child=%d loc=%p %s\n", e.id, e.g, names[e.kind], e.child, e.loc, e.site)
+					}
+				}
+			}
 			kind := "read/write"
 			if p.a.kind == evWrite && p.b.kind == evWrite {
 				kind = "write/write"
